@@ -90,6 +90,7 @@ impl<F: FixedChannelRegion> FixedChannelPlan<F> {
 
 pub(crate) trait FixedChannelRegion: ChannelRegion {
     /// Data rate of join requests sent on the 500 kHz channels 64..=71 (SF8 / 500 kHz).
+    const JOIN_DR_125KHZ: DR;
     const JOIN_DR_500KHZ: DR;
     fn uplink_channels() -> &'static [u32; 72];
     fn downlink_channels() -> &'static [u32; 8];
@@ -188,7 +189,7 @@ impl<F: FixedChannelRegion> RegionHandler for FixedChannelPlan<F> {
             Frame::Join => {
                 let channel = self.join_channels.get_next_channel(rng);
                 let dr = if channel < 64 {
-                    DR::_0
+                    F::JOIN_DR_125KHZ
                 } else {
                     F::JOIN_DR_500KHZ
                 };
@@ -202,7 +203,7 @@ impl<F: FixedChannelRegion> RegionHandler for FixedChannelPlan<F> {
                 if self.join_channels.has_bias_and_not_exhausted() {
                     let channel = self.join_channels.get_next_channel(rng);
                     let dr = if channel < 64 {
-                        DR::_0
+                        F::JOIN_DR_125KHZ
                     } else {
                         F::JOIN_DR_500KHZ
                     };
